@@ -39,7 +39,8 @@ ModesQ == {<<"strict", 1>>, <<"alo", 2>>}
 
 ShapesQ == {<<100, 100>>, <<100, 1500>>}
 ShapesT == {<<100, 100>>, <<300, 1500>>, <<1500, 1500>>, <<0, 100, 300, 1500, 1792, 100>>}
-ShapesBad == {<<100, 100, 100, 100, 100, 100, 100>>}
+ShapesBad == {<<100, 100, 100, 100, 100, 100, 100>>,          \* over the entry cap
+              <<1500, 1500, 7937>>}                            \* one entry over MAX_ALLOC behind entries that make the planner rotate
 FailQ == {<<100, 100>>, <<100, 1500>>}
 FailT == {<<100, 100>>, <<100, 1500>>, <<300, 1500>>, <<1500, 1500>>, <<1500, 1500, 1500>>}
 ShapesW == ShapesT \cup ShapesBad
